@@ -14,14 +14,15 @@ from vmon import mc
 
 ID = "C14"
 RULE = (
-    "seeded chains (Gibbs, Metropolis, PCA, Hamiltonian, ensemble; 1-4 parameters; lengths 1-400) x burn 0..length+2 x thin "
+    "seeded chains (Gibbs, Metropolis, PCA, Hamiltonian, ensemble; 1-4 parameters; lengths 1-400, plus two production-sized chains per job with 700-32000 rows read out with short burn-in, thin 1-3 and fractions such as 0.683, 0.9545, 0.9973) x burn 0..length+2 x thin "
     "1..length x interval fractions x requested counts; read-outs repeated after further steps and after replace_last; "
     "non-trivial = burn > 0 or thin > 1 or a requested count; distinct = distinct (chain, burn, thin, fraction, count)"
 )
 ASSUMPTIONS = ["rows are matched to the full chain by exact equality (chains of continuous draws have distinct rows)"]
 TIMEOUT = {"quick": 300, "thorough": 1800}
 REQUIRED = {"post:get_sample": 400, "post:get_interval": 300, "cases:zero_retained": 20, "cases:one_retained": 20,
-            "cases:interval_with_count": 100, "cases:after_replace_last": 20, "post:get_marginal": 40, "cases:read_out_after_interruption": 15}
+            "cases:interval_with_count": 100, "cases:after_replace_last": 20, "post:get_marginal": 40, "cases:read_out_after_interruption": 15,
+            "cases:long_chain": 20, "cases:long_chain_over_20000_rows": 4}
 
 
 def jobs(tier, seed):
@@ -29,8 +30,9 @@ def jobs(tier, seed):
     return [{"name": f"read-{j}", "seed": seed, "j": j, "n_chains": 24 if tier == "quick" else 120} for j in range(n_jobs)]
 
 
-def check_readouts(rec, ch, kind, rng, ctx, n_combos):
+def check_readouts(rec, ch, kind, rng, ctx, n_combos, long_run=False):
     d = ch.n_parameters
+    lookup = None
     full_s, full_p = mc.full_readout(ch)
     L = full_p.size
     if not rec.check(full_s.shape == (L, d), "full-readout-shape", f"full read-out shapes {full_s.shape}, {full_p.shape}", ctx):
@@ -38,6 +40,10 @@ def check_readouts(rec, ch, kind, rng, ctx, n_combos):
     for _ in range(n_combos):
         burn = int(rng.choice([0, 1, rng.integers(0, L + 3), max(L - 1, 0), L, L + 2]))
         thin = int(rng.choice([1, 2, 3, rng.integers(1, L + 1), L, max(L - 1, 1)]))
+        if long_run:
+            # production-sized read-outs: a short burn-in, little thinning, thousands of retained rows
+            burn = int(rng.choice([0, 1, rng.integers(0, L // 4 + 1)]))
+            thin = int(rng.choice([1, 1, 2, 3]))
         cctx = {**ctx, "length": L, "burn": burn, "thin": thin}
         idx = np.arange(L)[burn::thin]
         k = idx.size
@@ -63,7 +69,7 @@ def check_readouts(rec, ch, kind, rng, ctx, n_combos):
             ok_v = (not isinstance(v, Raised)) and np.shape(v) == (k,) and np.array_equal(np.asarray(v), full_s[idx, i])
             rec.check(ok_v, "get_parameter", lambda: f"{kind}: get_parameter({i}, burn={burn}, thin={thin}) = shape {np.shape(v)}; expected the {k} entries {idx[:5]}... of column {i}", cctx)
         # marginal estimate is built from exactly those values
-        if k >= 3 and np.unique(full_s[idx, 0]).size >= 3 and rng.random() < 0.35:
+        if k >= 3 and np.unique(full_s[idx, 0]).size >= 3 and rng.random() < (0.35 if not long_run else 1.0):
             i = int(rng.integers(d))
             mg = guarded(ch.get_marginal, i, burn=burn, thin=thin)
             rec.count("post:get_marginal")
@@ -81,6 +87,8 @@ def check_readouts(rec, ch, kind, rng, ctx, n_combos):
         # highest-density read-out
         if L - burn >= 1:
             frac = float(rng.choice([0.95, 0.5, rng.uniform(0.05, 0.999), 0.999, 0.1, 0.0, 1.0, 1e-17]))   # (0 and 1: nothing / everything)
+            if long_run:
+                frac = float(rng.choice([0.683, 0.9545, 0.9973, 0.995, rng.uniform(0.05, 0.9999), rng.uniform(0.9, 0.9999)]))
             want_n = None if rng.random() < 0.5 else int(rng.choice([1, 2, 5, rng.integers(1, max(L, 2)), L + 5]))
             ictx = {**cctx, "interval": frac, "samples": want_n}
             kw = dict(interval=frac, burn=burn, thin=thin)
@@ -112,13 +120,19 @@ def check_readouts(rec, ch, kind, rng, ctx, n_combos):
             must = [int(i) for i in sel if n_sel and cut < n_sel and full_p[i] > full_p[order[min(cut + 1, n_sel - 1)]]]
             # map returned rows back to chain indices
             rows_ok, used = True, []
+            if lookup is None:
+                lookup = {}
+                for h in range(L):
+                    lookup.setdefault((full_p[h].tobytes(), full_s[h].tobytes()), []).append(h)
+            taken = set()
             for r, q in zip(rs, rp):
-                hit = np.nonzero((full_p == q) & np.all(full_s == r[None, :], axis=1))[0]
-                hit = [int(h) for h in hit if int(h) in top and int(h) not in used]
+                hit = lookup.get((np.float64(q).tobytes(), np.ascontiguousarray(r, dtype=float).tobytes()), [])
+                hit = [h for h in hit if h in top and h not in taken]
                 if not hit:
                     rows_ok = False
                     break
                 used.append(hit[0])
+                taken.add(hit[0])
             rec.check(rows_ok, "interval-rows",
                       lambda: f"{kind}: get_interval(interval={frac:.4f}, burn={burn}, thin={thin}, samples={want_n}) returned a row/log-probability pair that is not "
                               f"a pair of the chain taken from the top fraction of chain[{burn}::{t_eff}]", ictx)
@@ -133,8 +147,36 @@ def check_readouts(rec, ch, kind, rng, ctx, n_combos):
                               lambda: f"{kind}: get_interval(samples={want_n}) returned no rows although the top fraction holds {strict_top.size}", ictx)
 
 
+def long_runs(job, rec, rng):
+    """Production-sized chains: thousands to tens of thousands of rows, read out with a short burn-in and little thinning."""
+    for c, kind in enumerate(["ensemble", mc.KINDS[job["j"] % len(mc.KINDS)]]):
+        d = int(rng.choice([1, 2, 3]))
+        target = mc.GaussTarget(np.zeros(d), np.eye(d))
+        if kind == "ensemble":
+            nw = int(rng.choice([20, 50, 64]))
+            ch = guarded(mc.make_sampler, kind, target, np.zeros(d), rng, n_walkers=nw, seed=int(rng.integers(2**31)))
+            steps = int(rng.choice([120, 21000 // nw + 5, 32000 // nw]))
+        else:
+            ch = guarded(mc.make_sampler, kind, target, rng.normal(size=d) * 0.3, rng, grad=target.grad, seed=int(rng.integers(2**31)))
+            steps = int(rng.choice([700, 1500, 2500])) if kind != "hmc" else int(rng.choice([300, 700]))
+        ctx = {"chain": f"long-{c}", "kind": kind, "d": d, "steps": steps}
+        rec.context = ctx
+        if isinstance(ch, Raised):
+            rec.violation("raised", f"{kind} construction raised {ch!r}", ctx)
+            continue
+        r = guarded(ch.advance, steps)
+        if isinstance(r, Raised):
+            rec.violation("raised", f"{kind}: advancing raised {r!r}", ctx)
+            continue
+        rec.count("cases:long_chain")
+        if len(ch.get_probabilities(burn=0, thin=1)) > 20000:
+            rec.count("cases:long_chain_over_20000_rows")
+        check_readouts(rec, ch, kind, rng, ctx, 3, long_run=True)
+
+
 def run_job(job, rec):
     rng = mk_rng(job["seed"], "C14", job["j"])
+    long_runs(job, rec, mk_rng(job["seed"], "C14-long", job["j"]))
     for c in range(job["n_chains"]):
         kind = mc.KINDS[(c + job["j"]) % len(mc.KINDS)]
         d = int(rng.choice([1, 2, 3, 4]))
